@@ -2511,7 +2511,7 @@ where
                 .build()
                 .unwrap();
             // Send disconnect packet directly without generic constraints
-            events.extend(self.process_send_v5_0_disconnect(disconnect_packet));
+            self.send_v5_0_disconnect_or_close(disconnect_packet, &mut events);
             events.push(GenericEvent::NotifyError(MqttError::PacketTooLarge));
             return events;
         }
@@ -3799,8 +3799,27 @@ where
             .reason_code(e.into())
             .build()
             .unwrap();
-        events.extend(self.process_send_v5_0_disconnect(disconnect));
+        self.send_v5_0_disconnect_or_close(disconnect, events);
         events.push(GenericEvent::NotifyError(e));
+    }
+
+    /// Answer a protocol-level error of the peer: DISCONNECT (which also requests the close)
+    /// when one can be sent, otherwise - no CONNACK exchanged yet, or the DISCONNECT exceeds the
+    /// peer's maximum packet size - just give the connection up.
+    fn send_v5_0_disconnect_or_close(
+        &mut self,
+        disconnect: v5_0::Disconnect,
+        events: &mut Vec<GenericEvent<PacketIdType>>,
+    ) {
+        if self.status == ConnectionStatus::Connected
+            && self.validate_maximum_packet_size_send(disconnect.size())
+        {
+            events.extend(self.process_send_v5_0_disconnect(disconnect));
+        } else if self.status != ConnectionStatus::Disconnected {
+            self.status = ConnectionStatus::Disconnected;
+            self.cancel_timers(events);
+            events.push(GenericEvent::RequestClose);
+        }
     }
 
     fn refresh_pingreq_recv(&mut self) -> Vec<GenericEvent<PacketIdType>> {
